@@ -62,6 +62,8 @@ type ledgerTx struct {
 	// away), the intrinsic gas and the length of the deployed runtime code (code deposit = 200 gas per byte)
 	need, intrinsic uint64
 	rtLen           int
+	rewardTerm      uint32 // set-reward txs: what the generator asked the precompile to store
+	rewardValue     *big.Int
 }
 
 type ledger struct {
@@ -81,6 +83,9 @@ type ledger struct {
 	// the harness's OWN record of every account's signer list on the main chain (from the ModifySigners txs of the blocks
 	// that were inserted): the C06 oracle never asks the implementation what the registered signers are
 	truth    map[common.Address]types.Signers
+	rewardSet  map[uint32]*big.Int // term -> reward the reward manager's INCLUDED set-reward tx stored (harness record)
+	rewardPaid map[uint32]uint32   // term -> height at which its salaries were minted
+	termT, termI uint32
 	pvHash   common.Hash
 	pvViews  map[common.Address]acctView
 	pvNodeID map[common.Address]string
@@ -177,6 +182,12 @@ func (l *ledger) view(h common.Hash, a common.Address) acctView {
 	}
 	return v
 }
+
+// the exchange rates of the property statement, as literals of the harness (never read from the code under test)
+var (
+	voteRateLit, _    = new(big.Int).SetString("200000000000000000000", 10) // 200 LEMO
+	depositRateLit, _ = new(big.Int).SetString("100000000000000000000", 10) // 100 LEMO
+)
 
 // flagCode: the four states the code distinguishes in profile[isCandidate] (it never validates the value):
 // 0 = absent or "", 1 = "true", 2 = "false", 3 = any other string.
@@ -352,7 +363,8 @@ func ledgerEpoch(c *Ctx, mode string, nBlocks int, epoch int) {
 	}
 	var contracts []common.Address
 	contractClass := map[common.Address]string{} // contract address -> class of the tx that created it
-	l := &ledger{c: c, w: w, n: n, labels: map[common.Address]int{}, names: map[string]*ecdsa.PrivateKey{}, mode: mode, actorOf: map[common.Address]string{}}
+	l := &ledger{c: c, w: w, n: n, labels: map[common.Address]int{}, names: map[string]*ecdsa.PrivateKey{}, mode: mode, actorOf: map[common.Address]string{},
+		rewardSet: map[uint32]*big.Int{}, rewardPaid: map[uint32]uint32{}, termT: termT, termI: termI}
 	// fixed labels: pool = 1, founder = 2
 	l.label(params.DepositPoolAddress)
 	l.label(keyAddr(w.FounderKey))
@@ -379,6 +391,13 @@ func ledgerEpoch(c *Ctx, mode string, nBlocks int, epoch int) {
 		hashFacts(c)
 	}
 	c.Op("reset", "ok")
+	// the property states the two exchange rates LITERALLY (200 LEMO per vote of a voter's balance, 100 LEMO per vote of a
+	// deposit): the harness has them as its own literals, the model driver answers table-mismatch unless the code's package
+	// variables equal the Lean model's defaults, and the tally oracle divides by the literals
+	c.Op(fmt.Sprintf("rate vote %s deposit %s precision %s", params.VoteExchangeRate.String(), params.DepositExchangeRate.String(), params.MinRewardPrecision.String()), "ok")
+	if params.VoteExchangeRate.Cmp(voteRateLit) != 0 || params.DepositExchangeRate.Cmp(depositRateLit) != 0 {
+		c.Fail("c11/fed-fact/exchange-rate", fmt.Sprintf("params.VoteExchangeRate = %s mo (property: 200 LEMO = %s), params.DepositExchangeRate = %s mo (property: 100 LEMO = %s)", params.VoteExchangeRate, voteRateLit, params.DepositExchangeRate, depositRateLit), nil)
+	}
 	c.Op(fmt.Sprintf("params %s %s %s %d %d %d %s", params.VoteExchangeRate.String(), params.DepositExchangeRate.String(), params.MinCandidateDeposit.String(),
 		params.TermDuration, params.InterimDuration, l.label(params.DepositPoolAddress), params.MinRewardPrecision.String()), "ok")
 	var us []string
@@ -427,6 +446,7 @@ func ledgerEpoch(c *Ctx, mode string, nBlocks int, epoch int) {
 	}{}
 
 	contractBlock := false
+	forcedCall := map[uint32]common.Address{} // main-chain height -> contract that block must call (after a fork scenario)
 	assetBlock := false // c01 mode: a block of asset txs (create / issue / replenish / multi-key modify / transfer)
 	type assetRec struct {
 		code, id      common.Hash
@@ -445,12 +465,12 @@ func ledgerEpoch(c *Ctx, mode string, nBlocks int, epoch int) {
 			other = extraNames[rnd.Intn(len(extraNames))]
 		}
 		ok_ := l.key(other)
-		kinds := []string{"transfer", "transfer", "transfer", "overdraft", "vote", "vote", "register", "topup", "unregister", "box", "boxfail", "payer", "payer-unsigned", "wrongkey", "setsigners", "ms-ok", "ms-dup", "ms-mall", "ms-short", "ms-ownkey", "extrasig", "pricey", "zero", "tamper", "tamper-box", "payer-self-forged", "flag", "payer-other-kind", "setsigners-var", "ms-resign"}
+		kinds := []string{"transfer", "transfer", "transfer", "overdraft", "vote", "vote", "register", "topup", "unregister", "box", "boxfail", "payer", "payer-unsigned", "wrongkey", "setsigners", "ms-ok", "ms-dup", "ms-mall", "ms-short", "ms-ownkey", "extrasig", "pricey", "zero", "tamper", "tamper-box", "tamper-box-multi", "payer-self-forged", "flag", "payer-other-kind", "setsigners-var", "ms-resign"}
 		switch l.mode {
 		case "c11":
 			kinds = []string{"transfer", "transfer", "vote", "vote", "vote", "register", "topup", "unregister", "box", "payer", "flag", "payer-other-kind"}
 		case "c06":
-			kinds = []string{"transfer", "payer", "payer-unsigned", "wrongkey", "setsigners", "ms-ok", "ms-dup", "ms-mall", "ms-short", "ms-ownkey", "ms-ownkey", "extrasig", "tamper", "tamper-box", "payer-self-forged", "box", "setsigners-var", "setsigners-var", "payer-other-kind", "ms-resign", "ms-resign"}
+			kinds = []string{"transfer", "payer", "payer-unsigned", "wrongkey", "setsigners", "ms-ok", "ms-dup", "ms-mall", "ms-short", "ms-ownkey", "ms-ownkey", "extrasig", "tamper", "tamper-box", "tamper-box-multi", "tamper-box-multi", "payer-self-forged", "box", "setsigners-var", "setsigners-var", "payer-other-kind", "ms-resign", "ms-resign"}
 		}
 		k := kinds[rnd.Intn(len(kinds))]
 		switch k {
@@ -474,7 +494,7 @@ func ledgerEpoch(c *Ctx, mode string, nBlocks int, epoch int) {
 			k = []string{"asset-create", "asset-create", "asset-issue", "asset-issue", "asset-replenish", "asset-modify", "asset-modify", "asset-transfer", "asset-transfer", "transfer"}[rnd.Intn(10)]
 		}
 		if contractBlock {
-			k = []string{"create-counter", "create-reverter", "create-logger", "create-killer", "create-killer-self", "create-killer-self", "create-sweep", "create-sweep", "create-sweep", "call", "call", "call", "call-value", "call-value", "transfer"}[rnd.Intn(15)]
+			k = []string{"create-counter", "create-reverter", "create-logger", "create-killer", "create-killer-self", "create-killer-self", "create-sweep", "create-sweep", "create-sweep", "call", "call", "call", "call-value", "call-value", "transfer", "create-bh", "create-bh", "create-env", "call", "call"}[rnd.Intn(20)]
 		}
 		c.Count("gen:" + k)
 		cands := []common.Address{}
@@ -804,6 +824,16 @@ func ledgerEpoch(c *Ctx, mode string, nBlocks int, epoch int) {
 			k = "transfer"
 		}
 		switch k {
+		case "create-bh":
+			// ENVIRONMENT reads: init code AND runtime store BLOCKHASH(NUMBER-k) for k = 1, 2, 3, 257 or an out-of-range
+			// number (NUMBER+5) in slot 0 — the block result depends on the ancestor hashes of the block's OWN branch
+			kk := []string{"1", "2", "2", "3", "3", "257", "oor"}[rnd.Intn(7)]
+			pre, rt := bhCode(kk)
+			return mk(txCreate(uk, nil, initWithPrelude(pre, rt), TxOpt{Exp: exp(), Msg: u_("cbh")}), "create-bh-"+kk, u)
+		case "create-env":
+			// COINBASE, TIMESTAMP, NUMBER, GASLIMIT stored in slots 1..4 (init code and runtime)
+			pre, rt := envCode()
+			return mk(txCreate(uk, nil, initWithPrelude(pre, rt), TxOpt{Exp: exp(), Msg: u_("cenv")}), k, u)
 		case "create-counter":
 			// storage[0]++ ; emits nothing
 			rt := []byte{0x60, 0x01, 0x60, 0x00, 0x54, 0x01, 0x60, 0x00, 0x55, 0x00}
@@ -969,13 +999,19 @@ func ledgerEpoch(c *Ctx, mode string, nBlocks int, epoch int) {
 			default:
 				lt = mk(txTransfer(uk, keyAddr(ok_), lemo(2), TxOpt{Exp: exp(), Msg: u_("tm")}), k, u)
 			}
+			byConstruction := false
 			edited := func(f func(m map[string]interface{})) (out *types.Transaction) {
 				defer func() {
 					if r := recover(); r != nil {
 						out = nil // the decoder refuses the edited tx: it cannot exist on the wire
 					}
 				}()
-				return txEdit(lt.tx, f)
+				return txEdit(lt.tx, func(m map[string]interface{}) {
+					was, _ := json.Marshal(m)
+					f(m)
+					now, _ := json.Marshal(m)
+					byConstruction = string(was) != string(now) // decided by the edit itself, not by any hash
+				})
 			}(func(m map[string]interface{}) {
 				switch field {
 				case "amount", "reimb-amount":
@@ -1025,10 +1061,12 @@ func ledgerEpoch(c *Ctx, mode string, nBlocks int, epoch int) {
 				return lt
 			}
 			lt.tx = edited
-			lt.tampered = lt.tx.Hash() != lt.orig.Hash()
+			lt.tampered = byConstruction
 			lt.class = "tamper-" + field
 			if !lt.tampered {
 				lt.class = "transfer" // the edit happened to write the value that was there
+			} else if lt.tx.Hash() == lt.orig.Hash() {
+				c.Fail("c06/hash-ignores-field/"+field, fmt.Sprintf("the tx id (Transaction.Hash) is the same before and after the %s member of the tx was changed", field), nil)
 			}
 			return lt
 		case "tamper-box":
@@ -1057,6 +1095,58 @@ func ledgerEpoch(c *Ctx, mode string, nBlocks int, epoch int) {
 			lt.subs = []*ledgerTx{mk(b, "sub", su2)}
 			lt.tampered = true
 			lt.class = "tamper-box-" + variant
+			return lt
+		case "tamper-box-multi":
+			// a box with 2..3 sub-txs, signed by its owner; AFTERWARDS the sub-tx list inside the box data is edited at one
+			// position: sub-tx i swapped for another validly signed tx / removed / a tx appended / two neighbours reordered.
+			// The owner's signature covers the list of ALL sub-tx hashes in order: every such box must be dead.
+			// Tampered BY CONSTRUCTION (nothing is asked of the implementation).
+			nSub := 2 + rnd.Intn(2)
+			var subsTx types.Transactions
+			var names []string
+			for i := 0; i < nSub; i++ {
+				su := userNames[rnd.Intn(len(userNames))]
+				subsTx = append(subsTx, txTransfer(l.key(su), keyAddr(ok_), lemo(1), TxOpt{Exp: exp(), Msg: u_("tbm")}))
+				names = append(names, su)
+			}
+			su2 := userNames[rnd.Intn(len(userNames))]
+			extra := txTransfer(l.key(su2), keyAddr(l.key("intruder")), lemo(3), TxOpt{Exp: exp(), Msg: u_("tbx")})
+			box := txBox(uk, subsTx, TxOpt{Exp: exp(), Msg: u_("tbmb")})
+			pos := rnd.Intn(nSub)
+			opn := []string{"swap", "swap", "remove", "append", "reorder"}[rnd.Intn(5)]
+			newTxs := append(types.Transactions{}, subsTx...)
+			newNames := append([]string{}, names...)
+			switch opn {
+			case "swap":
+				newTxs[pos], newNames[pos] = extra, su2
+			case "remove":
+				newTxs = append(newTxs[:pos:pos], newTxs[pos+1:]...)
+				newNames = append(newNames[:pos:pos], newNames[pos+1:]...)
+			case "append":
+				newTxs, newNames = append(newTxs, extra), append(newNames, su2)
+				pos = nSub
+			case "reorder":
+				q := (pos + 1) % nSub
+				newTxs[pos], newTxs[q] = newTxs[q], newTxs[pos]
+				newNames[pos], newNames[q] = newNames[q], newNames[pos]
+			}
+			var bd map[string]interface{}
+			json.Unmarshal(box.Data(), &bd)
+			var lst []interface{}
+			for _, st := range newTxs {
+				bj, _ := st.MarshalJSON()
+				var bm map[string]interface{}
+				json.Unmarshal(bj, &bm)
+				lst = append(lst, bm)
+			}
+			bd["subTxList"] = lst
+			nd, _ := json.Marshal(bd)
+			lt := mk(txEdit(box, func(m map[string]interface{}) { m["data"] = common.ToHex(nd) }), k, u)
+			for i, st := range newTxs {
+				lt.subs = append(lt.subs, mk(st, "sub", newNames[i]))
+			}
+			lt.tampered = true
+			lt.class = fmt.Sprintf("tamper-box-multi:%s@%d/%d", opn, pos, nSub)
 			return lt
 		case "payer-self-forged":
 			// V once endorsed the GAS of somebody else's reimbursement tx T0 (its payer signature is public). The forger
@@ -1207,6 +1297,11 @@ func ledgerEpoch(c *Ctx, mode string, nBlocks int, epoch int) {
 		phase := height % termT
 		isSnapshot := deputynode.IsSnapshotBlock(height)
 		isReward := deputynode.IsRewardBlock(height)
+		// the reward heights in closed form over the durations the harness chose (C13's theorem reward_iff_term_starts is about
+		// the regenerated function; this literal does not go through it)
+		if want := height >= termT+termI+1 && height%termT == termI+1; want != isReward {
+			c.Fail("c05/fed-fact/reward-height", fmt.Sprintf("height %d (TermDuration %d, InterimDuration %d): IsRewardBlock=%v, closed form h>=T+I+1 && h mod T == I+1 says %v", height, termT, termI, isReward, want), nil)
+		}
 		nearBoundary = !first && (phase+2 >= termT || phase <= termI+1)
 		contractBlock = false
 		assetBlock = false
@@ -1246,10 +1341,46 @@ func ledgerEpoch(c *Ctx, mode string, nBlocks int, epoch int) {
 			default:
 				value = lemo(100000)
 			}
-			cand = append(cand, mk(txSetReward(w.FounderKey, term, value, TxOpt{Exp: exp(), Msg: u_("rw")}), "set-reward", "founder"))
+			// (the running term by the harness's OWN arithmetic over the durations it chose)
+			ownTerm := uint32(0)
+			if height >= termT+termI+1 {
+				ownTerm = (height - termI - 1) / termT
+			}
+			if ownTerm != term {
+				c.Fail("c05/fed-fact/term-index", fmt.Sprintf("height %d (T=%d I=%d): GetSignerTermIndexByHeight says %d, own arithmetic %d", height, termT, termI, term, ownTerm), nil)
+			}
+			{
+				lt := mk(txSetReward(w.FounderKey, ownTerm, value, TxOpt{Exp: exp(), Msg: u_("rw")}), "set-reward", "founder")
+				lt.rewardTerm, lt.rewardValue = ownTerm, value
+				cand = append(cand, lt)
+			}
 			c.Count("block:set-reward")
+		} else if mode == "c01" && blk == 1 {
+			// the environment-reading contracts are deployed at once, so that the fork scenarios below find them
+			contractBlock = true
+			for _, kk := range []string{"1", "2", "3", "257", "oor"} {
+				pre, rt := bhCode(kk)
+				cand = append(cand, mk(txCreate(w.FounderKey, nil, initWithPrelude(pre, rt), TxOpt{Exp: exp(), Msg: u_("cbh")}), "create-bh-"+kk, "founder"))
+			}
+			pre, rt := envCode()
+			cand = append(cand, mk(txCreate(w.FounderKey, nil, initWithPrelude(pre, rt), TxOpt{Exp: exp(), Msg: u_("cenv")}), "create-env", "founder"))
 		} else {
 			contractBlock = !isReward && !isSnapshot && (mode == "c01" && rnd.Intn(3) == 0 || mode == "c05" && rnd.Intn(5) == 0)
+			// BLOCKHASH across a FORK of the unstable chain (mode c01): a side branch of three blocks is mined on this parent
+			// and executed by BOTH nodes' engines; its third block asks BLOCKHASH(h) (= the side branch's first block). The main
+			// chain then goes on from the same parent; its block h+2 asks BLOCKHASH(h) again and must get the MAIN block.
+			if mode == "c01" && !isReward && !isSnapshot && phase >= termI+3 && phase+2 <= termT-1 && forcedCall[height] == (common.Address{}) && forcedCall[height+1] == (common.Address{}) && rnd.Intn(2) == 0 {
+				if bh2 := l.aliveContract(parent.Hash(), contractClass, "create-bh-2"); bh2 != (common.Address{}) {
+					if l.blockhashFork(nb, parent, t, exp(), bh2) {
+						forcedCall[height+2] = bh2
+					}
+				}
+			}
+			if to := forcedCall[height]; to != (common.Address{}) && !isReward && !isSnapshot {
+				contractBlock = true
+				cand = append(cand, mk(txCall(w.FounderKey, to, nil, []byte{1}, TxOpt{Exp: exp(), GasLimit: 200000, Msg: u_("bhm")}), "call-blockhash-after-fork", "founder"))
+				c.Count("bhfork:main-block-asks-BLOCKHASH(fork-height)")
+			}
 			assetBlock = !contractBlock && !isReward && !isSnapshot && mode == "c01" && rnd.Intn(5) == 0
 			nt := 1 + rnd.Intn(7)
 			if isReward && rnd.Intn(3) == 0 {
@@ -1300,8 +1431,10 @@ func ledgerEpoch(c *Ctx, mode string, nBlocks int, epoch int) {
 		var txLines []string
 		for _, lt := range cand {
 			txLines = append(txLines, l.txLine("tx", lt))
+			l.signerFact(lt)
 			for _, st := range lt.subs {
 				txLines = append(txLines, l.txLine("sub", st))
+				l.signerFact(st)
 			}
 		}
 		var rf *rewardFacts
@@ -1439,6 +1572,7 @@ func ledgerEpoch(c *Ctx, mode string, nBlocks int, epoch int) {
 					l.rebuildChecks(b, txs, t, byHash, blockGas, k)
 				}
 				l.redoChecks(b)
+				l.redoKeyed(b)
 			}
 			var sel, inv []string
 			for _, tx := range b.Txs {
@@ -1454,9 +1588,18 @@ func ledgerEpoch(c *Ctx, mode string, nBlocks int, epoch int) {
 			}
 			if modelled {
 				l.oracles(b, invalid, byHash, before, miner, multisig, rf, refunds)
-			} else if contractBlock {
-				// EVM value flows, reverts, out-of-gas, self-destruct: not modelled — conservation is judged by the oracle alone
+			} else {
+				// contract / set-reward / asset blocks: EVM value flows, reverts, out-of-gas, self-destruct, the precompile call,
+				// asset handlers are not modelled — conservation is judged by the oracle alone (state reads of every named address)
 				l.contractSupplyOracle(b, miner, byHash, contractClass)
+				if rewardSetBlock {
+					// what the reward manager set for which term, by the harness's own record
+					for _, tx := range b.Txs {
+						if lt := byHash[tx.Hash()]; lt != nil && lt.class == "set-reward" && tx.GasUsed() < tx.GasLimit() {
+							l.rewardSet[lt.rewardTerm] = lt.rewardValue
+						}
+					}
+				}
 			}
 			for _, tx := range b.Txs {
 				if tx.Type() == params.CreateContractTx {
@@ -1658,6 +1801,27 @@ func (l *ledger) oracles(b *types.Block, invalid types.Transactions, byHash map[
 		if rf.total.Sign() > 0 {
 			c.Count("reward:total>0")
 		}
+		// the closing term and its reward by the harness's own record: term index from own arithmetic, value = what the
+		// included set-reward tx asked for (0 when none was sent)
+		if b.Height() >= l.termT+l.termI+1 {
+			ownTerm := (b.Height()-1-l.termI-1)/l.termT
+			if b.Height()-1 < l.termT+l.termI+1 {
+				ownTerm = 0
+			}
+			want := l.rewardSet[ownTerm]
+			if want == nil {
+				want = new(big.Int)
+			}
+			if ownTerm != rf.term || want.Cmp(rf.total) != 0 {
+				c.Fail("c05/fed-fact/reward-total", fmt.Sprintf("reward block %d: the closing term is %d with reward %s by the harness's record (own term arithmetic, value of the included set-reward tx); the engine's term record / storage of 0x09 say term %d, reward %s", b.Height(), ownTerm, want, rf.term, rf.total), nil)
+			}
+			if rf.total.Sign() > 0 {
+				if at, ok := l.rewardPaid[ownTerm]; ok {
+					c.Fail("c05/term-reward-issued-twice", fmt.Sprintf("block %d pays the reward of term %d, which block %d already paid", b.Height(), ownTerm, at), nil)
+				}
+				l.rewardPaid[ownTerm] = b.Height()
+			}
+		}
 		sal := expectedSalaries(rf)
 		for i, x := range sal {
 			expMint.Add(expMint, x)
@@ -1799,13 +1963,13 @@ func (l *ledger) oracles(b *types.Block, invalid types.Transactions, byHash map[
 					if d == nil {
 						d = new(big.Int)
 					}
-					e[a] = new(big.Int).Sub(v.votes, new(big.Int).Div(d, params.DepositExchangeRate))
+					e[a] = new(big.Int).Sub(v.votes, new(big.Int).Div(d, depositRateLit))
 				}
 			}
 			for _, a := range l.univ {
 				v := views[a]
 				if _, ok := e[v.voteFor]; ok {
-					e[v.voteFor].Sub(e[v.voteFor], new(big.Int).Div(v.bal, params.VoteExchangeRate))
+					e[v.voteFor].Sub(e[v.voteFor], new(big.Int).Div(v.bal, voteRateLit))
 				}
 			}
 			return e
@@ -2045,11 +2209,11 @@ func (l *ledger) tallyOK(h common.Hash, cand common.Address) bool {
 	if d == nil {
 		d = new(big.Int)
 	}
-	exp := new(big.Int).Div(d, params.DepositExchangeRate)
+	exp := new(big.Int).Div(d, depositRateLit)
 	for _, a := range l.univ {
 		x := l.view(h, a)
 		if x.voteFor == cand {
-			exp.Add(exp, new(big.Int).Div(x.bal, params.VoteExchangeRate))
+			exp.Add(exp, new(big.Int).Div(x.bal, voteRateLit))
 		}
 	}
 	return exp.Cmp(v.votes) == 0
@@ -2062,8 +2226,9 @@ func (l *ledger) crossNode(nb *Node, b *types.Block, cands types.Transactions, t
 	c := l.c
 	hasAssetTx := waitAssetIndex(nb, b)
 	if e := nb.Insert(CloneBlock(b)); e != nil {
-		if hasAssetTx {
-			// asset txs are pre-checked against the node's STABLE asset index / canonical accounts (known finding)
+		if hasAssetTx && !assetIndexKnows(nb, b) {
+			// asset txs are pre-checked against the node's STABLE asset index / canonical accounts (known finding) — filed
+			// under it only when the known cause is PRESENT: node B's index does not know an asset the block refers to
 			c.Fail("c01/honest-block-rejected/asset-tx-needs-locally-stable-asset", fmt.Sprintf("block %d (with asset txs) mined on node A is rejected by node B although B holds and confirmed the same blocks: %v", b.Height(), e), nil)
 			return false
 		}
